@@ -53,26 +53,27 @@ Definition cls_code (c : option cls) : nat :=
 
 (** does STORE re-file the row (Junk newly added outside Spam, or else NonJunk
     newly added outside INBOX)? *)
-Definition will_move (e : env) (mb : Z) (item : str) (new : list str) (l : link) : bool :=
+Definition will_move (e : env) (sp : option Z) (mb : Z) (item : str) (new : list str) (l : link) : bool :=
   let upd := calculate_new_flags (lk_flags l) new item in
-  if junk_added (lk_flags l) upd then negb (mb =? spam_id e)
+  if junk_added (lk_flags l) upd
+  then match sp with Some d => negb (mb =? d) | None => false end   (* no mailbox named Spam: the move fails, the flags are stored in place *)
   else if nonjunk_added (lk_flags l) upd then negb (mb =? inbox_id e)
   else false.
 
 Definition rows_of_uids (ls : list link) (mb : Z) (uids : list Z) : list link :=
   flat_map (fun u => match find_key ls mb u with Some l => [l] | None => [] end) uids.
 
-Definition junk_class (e : env) (mb : Z) (item : str) (new : list str) (rows : list link) : option cls :=
-  if existsb (will_move e mb item new) rows then Some JunkMove else None.
+Definition junk_class (e : env) (sp : option Z) (mb : Z) (item : str) (new : list str) (rows : list link) : option cls :=
+  if existsb (will_move e sp mb item new) rows then Some JunkMove else None.
 
 Definition classify (e : env) (s : st) (o : op) : option cls :=
   match o with
   | OStore ro _ mb q item new =>
       if ro || negb (flags_valid new) then None
-      else junk_class e mb item new (rows_of_uids (links s) mb (seq_targets (links s) mb q))
+      else junk_class e (spam s) mb item new (rows_of_uids (links s) mb (seq_targets (links s) mb q))
   | OUidStore ro _ mb q item new =>
       if ro || negb (flags_valid new) then None
-      else junk_class e mb item new (rows_of_uids (links s) mb (expand_uid (links s) mb q))
+      else junk_class e (spam s) mb item new (rows_of_uids (links s) mb (expand_uid (links s) mb q))
   | _ => None
   end.
 
